@@ -402,6 +402,33 @@ def inject(schema, document):
                 yield "5.6.3", "variable-default", replace(
                     D, defs=D.defs[:di] + (replace(o, vars=o.vars + (VarDef("zzDup", "P", ObjV((("a", IntV("1")), ("a", IntV("2"))))),),
                                                    sel=o.sel + (Field("__typename", None, (), (Directive("dq", (Arg("p", Var("zzDup")),)),)),)),) + D.defs[di + 1:])
+    # a variable misused (5.8.5: String variable for an Int argument) / undefined (5.8.3) / unused elsewhere, in a fragment that is reached
+    # only through one of several sibling spreads -- first, middle, last -- and one or two levels further down
+    for di, o in enumerate(D.defs):
+        if not isinstance(o, Operation) or schema.directive("dq") is None:
+            continue
+        rt = schema.root(o.kind)
+        if rt is None:
+            continue
+        names = [rewrite.fresh(D, "SIB%s" % c) for c in "ABCDE"]
+        bad585 = Field("__typename", "tsib", (), (Directive("dq", (Arg("n", Var("zzSib")),)),))
+        for pos, ptag in ((0, "first"), (1, "middle"), (2, "last")):
+            for deep in (1, 2):
+                sibs = [Fragment(n, rt, (), (Field("__typename", "ts%d" % k),)) for k, n in enumerate(names[:3])]
+                leaf = Fragment(names[3], rt, (), (bad585,))
+                chain = [leaf]
+                target = names[3]
+                if deep == 2:
+                    chain.append(Fragment(names[4], rt, (), (Spread(names[3]),)))
+                    target = names[4]
+                sibs[pos] = replace(sibs[pos], sel=(Spread(target),) + sibs[pos].sel)
+                o585 = replace(o, shorthand=False, vars=o.vars + (VarDef("zzSib", "String"),), sel=o.sel + tuple(Spread(n) for n in names[:3]))
+                yield "5.8.5", "under-sibling-spread|%s|depth-%d" % (ptag, deep), replace(
+                    D, defs=D.defs[:di] + (o585,) + D.defs[di + 1:] + tuple(sibs) + tuple(chain))
+                o583 = replace(o, shorthand=False, sel=o.sel + tuple(Spread(n) for n in names[:3]))
+                yield "5.8.3", "under-sibling-spread|%s|depth-%d" % (ptag, deep), replace(
+                    D, defs=D.defs[:di] + (o583,) + D.defs[di + 1:] + tuple(sibs) + tuple(chain))
+        break
     # variable defined by the *other* operation only
     if len(ops) >= 2 and all(o.name for o in ops):
         o0i = [i for i, x in enumerate(D.defs) if isinstance(x, Operation)]
